@@ -106,8 +106,11 @@ class Asset:
         '''
         if value == 0:
             return
+        # Read the time first so that nothing is changed if the Asset
+        # is not initialized yet.
+        time = self._env.now
         self._value += value
-        self._value_history.append((label, self._env.now, value, self._value))
+        self._value_history.append((label, time, value, self._value))
 
     def add_cost(self, label, cost):
         ''' Decrease the value of the Asset and record the change in
